@@ -57,6 +57,11 @@ def ev_pred(p, toks, ctx):
             return False
         d = sum((a - b).values()) + sum((b - a).values())
         return d <= p['m']
+    if k == 'member':
+        # accepts exactly the members of a given set of inputs (the command
+        # of the property's quantifier: "accepts exactly the members of a
+        # would-be cycle")
+        return reftok.digest(toks) in p['digs']
     if k == 'len_ge':
         return len(toks) >= p['n']
     if k == 'and':
